@@ -67,13 +67,15 @@ impl TypeCastExpression {
     ///
     /// Some expressions require parentheses to ensure correct operator precedence when type cast.
     pub fn needs_parentheses(expression: &Expression) -> bool {
-        matches!(
-            expression,
+        match expression {
             Expression::Binary(_)
-                | Expression::Unary(_)
-                | Expression::TypeCast(_)
-                | Expression::If(_)
-        )
+            | Expression::Unary(_)
+            | Expression::TypeCast(_)
+            | Expression::If(_) => true,
+            // a negative number is written with a leading minus sign
+            Expression::Number(number) => number.compute_value().is_sign_negative(),
+            _ => false,
+        }
     }
 
     /// Returns a mutable reference to the last token for this type cast expression,
